@@ -156,6 +156,23 @@ func (s *schemaDoc) validate(n map[string]any, v any, path string, errs *[]strin
 				s.validate(it, el, fmt.Sprintf("%s[%d]", path, i), errs)
 			}
 		}
+		if u, _ := n["uniqueItems"].(bool); u {
+			seen := map[string]bool{}
+			for _, el := range x {
+				k, _ := json.Marshal(el)
+				if seen[string(k)] {
+					*errs = append(*errs, fmt.Sprintf("%s: items are not unique (%s occurs twice)", path, k))
+					break
+				}
+				seen[string(k)] = true
+			}
+		}
+		if mn, ok := n["minItems"].(float64); ok && float64(len(x)) < mn {
+			*errs = append(*errs, fmt.Sprintf("%s: %d items, minItems %v", path, len(x), mn))
+		}
+		if mx, ok := n["maxItems"].(float64); ok && float64(len(x)) > mx {
+			*errs = append(*errs, fmt.Sprintf("%s: %d items, maxItems %v", path, len(x), mx))
+		}
 	}
 }
 
@@ -500,6 +517,25 @@ func c17(run *ev.Run, tier string) {
 		s2 := base()
 		s2.SetOverride("ipk", &gen.Over{IPK: gen.IPK{Alternatives: []gen.IPKAlt{{Target: "/usr/bin/tool-1", LinkName: "/usr/bin/tool"}}}})
 		docs = append(docs, c17Doc{"optional-keys-left-out|overrides.ipk.alternatives", s2.YAML(), []string{"ipk"}})
+	}
+	for _, pl := range []string{"netbsd", "solaris", "${VERIF_GOOS}", "linux"} {
+		s := base()
+		s.Platform = pl
+		docs = append(docs, c17Doc{"platform|" + pl, s.YAML(), []string{"deb", "rpm"}})
+	}
+	{
+		// list settings keep repeated items: the schema must not call them sets
+		s := base()
+		s.IPK.Tags = []string{"net", "admin", "net"}
+		s.Depends = []string{"dup", "dup"}
+		s.Provides = []string{"virt", "virt"}
+		s.Deb.Interest = []string{"/t1", "/t1"}
+		s.RPM.Prefixes = []string{"/opt", "/opt"}
+		docs = append(docs, c17Doc{"repeated-list-items", s.YAML(), formats})
+		// the default entry type spelled out as an empty string
+		raw := base().YAML() + "\n"
+		raw = strings.Replace(raw, "contents:\n", "contents:\n  - src: "+payload+"\n    dst: /opt/schemapkg/explicit-empty-type\n    type: \"\"\n", 1)
+		docs = append(docs, c17Doc{"explicit-empty-type", raw, formats})
 	}
 	{
 		s := base()
